@@ -182,7 +182,9 @@ def run(tier: str, seed: int) -> int:
     cli_cases(res, drv, tier)
     from .. import reuse
     desc0, files0, _ = suitcases.make_case(777, 3, depth=0)
-    reuse.signer_reuse(res, bytes.fromhex(suitcases.run_impl_create(strip_blocks(desc0), files0)["ok"]), PROP)
+    env0 = bytes.fromhex(suitcases.run_impl_create(strip_blocks(desc0), files0)["ok"])
+    reuse.signer_reuse(res, env0, PROP)
+    reuse.signature_value_sweep(res, env0, PROP, 2400 if tier == "quick" else 40000)
     drv.close()
     return finish(res, st, RULE, NOTE)
 
